@@ -3,7 +3,9 @@
    own log, committed or not; V0 is the bootstrap voter list; a leader appends a configuration only
    when the previous one is committed, when it has committed an entry of its own term, and when the
    new voter list differs from the current one by at most one voter; messages may be lost,
-   duplicated, reordered, delayed).  Proofs: Abs/CfgQuorum.v (adjacent majorities meet),
+   duplicated, reordered, delayed; every node has a durable log prefix, leaders append without
+   flushing and flush before committing, followers flush before acknowledging, any node may crash
+   and restart at any time losing its unflushed tail and volatile state).  Proofs: Abs/CfgQuorum.v (adjacent majorities meet),
    Abs/CfgInvT.v (from the state facts to leader completeness and election safety), the
    preservation lemmas Abs/CfgInvStep*.v, Abs/CfgInvAll.v.  Concrete runs: Abs/CfgExample.v,
    Abs/CfgRefute.v (the variant without the "committed in its own term" guard is unsafe). *)
@@ -48,8 +50,32 @@ Theorem cfg_state_machine_safety : forall V0, NoDup V0 -> forall s n m i,
 Proof. exact state_machine_safety. Qed.
 Print Assumptions cfg_state_machine_safety.
 
+(* durability: the commit index never exceeds the durable prefix *)
+Theorem cfg_commit_le_flushed : forall V0, NoDup V0 -> forall s n,
+  Reachable V0 s ->
+  (commit (st s n) <= flushed (st s n) <= length (log (st s n)))%nat.
+Proof. exact commit_le_flushed. Qed.
+Print Assumptions cfg_commit_le_flushed.
+
+(* whatever happens after a commit (crashes and restarts included, [steps] is the reflexive-
+   transitive closure of the step relation), the committed record stays committed and every
+   leader elected later holds the entry *)
+Theorem cfg_committed_survives_crash : forall V0, NoDup V0 -> forall s s' t i e,
+  Reachable V0 s -> steps V0 s s' -> In (t, i, e) (committed s) ->
+  In (t, i, e) (committed s') /\
+  forall u l L, In (u, l, L) (elected s') -> t < u -> nth_error L (i - 1) = Some e.
+Proof.
+  intros V0 HV s s' t i e R H Hc.
+  destruct (committed_survives V0 s s' t i e R H Hc) as [R' Hc'].
+  split; [exact Hc'|]. intros u l L He Htu.
+  exact (leader_completeness V0 HV s' t i e u l L R' Hc' He Htu).
+Qed.
+Print Assumptions cfg_committed_survives_crash.
+
 (* a concrete run, V0 = [1;2;3]: leader 1 commits a configuration adding 4 (index 2), then one
-   removing itself (index 3), then a data entry under [2;3;4] without counting itself (index 4) *)
+   removing itself (index 3), then a data entry under [2;3;4] without counting itself (index 4);
+   follower 2 crashes and recovers its commit index from a heartbeat; leader 1 appends an entry
+   (1, PData 8) that it never flushes and crashes: that entry is lost, the committed ones stay *)
 Example cfg_run_reachable : Reachable V3 final.
 Proof. exact final_reachable. Qed.
 Print Assumptions cfg_run_reachable.
@@ -57,10 +83,14 @@ Print Assumptions cfg_run_reachable.
 Example cfg_run_facts :
   In (1, 2%nat, (1, PCfg [1; 2; 3; 4])) (committed final) /\
   In (1, 3%nat, (1, PCfg [2; 3; 4])) (committed final) /\
-  In (1, 4%nat, (1, PData 7)) (committed final) /\ role (st final 1) = Leader /\
-  cfg V3 final 1 = [2; 3; 4] /\ commit (st final 1) = 4%nat /\
-  commit (st final 2) = 3%nat /\
-  log (st final 4) = [(1, PData 0); (1, PCfg [1; 2; 3; 4]); (1, PCfg [2; 3; 4]); (1, PData 7)].
+  In (1, 4%nat, (1, PData 7)) (committed final) /\ role (st final 1) = Follower /\
+  cfg V3 final 1 = [2; 3; 4] /\ commit (st final 1) = 2%nat /\
+  commit (st final 2) = 4%nat /\
+  log (st final 4) = [(1, PData 0); (1, PCfg [1; 2; 3; 4]); (1, PCfg [2; 3; 4]); (1, PData 7)] /\
+  log (st final 1) = [(1, PData 0); (1, PCfg [1; 2; 3; 4]); (1, PCfg [2; 3; 4]); (1, PData 7)] /\
+  flushed (st final 1) = 4%nat /\
+  log (st final 2) = [(1, PData 0); (1, PCfg [1; 2; 3; 4]); (1, PCfg [2; 3; 4]); (1, PData 7)] /\
+  flushed (st final 2) = 4%nat.
 Proof. exact final_facts. Qed.
 Print Assumptions cfg_run_facts.
 
